@@ -1,3 +1,42 @@
-/-! Model for property C06 (core Lean only; no Mathlib). -/
+import Ptn.C05.Model
+/-! Model for property C06 (one-site TDVP as a composition of local flows); core Lean only.
+
+The schedule itself is `Ptn.C05.first` / `Ptn.C05.second`.  Here:
+* `centreAfter` tracks the orthogonality centre through the events (a site update stays, a link
+  update from `a` to `b` moves the centre to `b`);
+* a step is the composition of *local flows* `φ e t : α → α` (`e` = which site/bond, `t` = signed
+  duration in half steps) over the state space `α` — `runFlow`. -/
 namespace Ptn.C06
+open Ptn.C05
+
+def centreAfter (c : Nat) : List Ev → Nat
+  | [] => c
+  | .site _ _ :: tr => centreAfter c tr
+  | .link _ b _ :: tr => centreAfter b tr
+  | .two _ b _ :: tr => centreAfter b tr
+
+/-- Position of an event irrespective of orientation and duration. -/
+inductive Pos where
+  | site (v : Nat)
+  | bond (a b : Nat)     -- unordered: normalised with the smaller id first
+deriving DecidableEq, Repr
+
+def Ev.pos : Ev → Pos
+  | .site v _ => .site v
+  | .link a b _ => if a ≤ b then .bond a b else .bond b a
+  | .two a b _ => if a ≤ b then .bond a b else .bond b a
+
+/-- A step as a sequence of (position, signed duration). -/
+abbrev Sched := List (Pos × Int)
+
+def schedOf (tr : List Ev) : Sched := tr.map fun e => (Ev.pos e, Ev.dur e)
+
+/-- Apply the local flows in order. -/
+def runFlow {α : Type} (φ : Pos → Int → α → α) (s : Sched) (x : α) : α :=
+  s.foldl (fun x pt => φ pt.1 pt.2 x) x
+
+/-- The same schedule with every duration negated: a step with `-H` (the local generator
+    `-i t EᴴHE` only sees the product `t·H`). -/
+def negSched (s : Sched) : Sched := s.map fun pt => (pt.1, -pt.2)
+
 end Ptn.C06
